@@ -1,0 +1,45 @@
+//go:build verif
+
+package ethsecp256k1
+
+// Contracts for the deductive checker in /verif (comment-only; compiled only with -tags verif).
+// C03 (e): what an accepted signature of an ethsecp256k1 account key commits to. Lib specs: /verif/specs/c03e/63_ecdsa.spec
+// (Keccak-256 and ECDSA verification, uninterpreted), contracts of ethereum/eip712 (typed data of a sign document).
+
+/*@
+// sig (64 bytes [R || S], or 65 bytes with a trailing recovery id that is dropped) verifies under key over the Keccak-256
+// digest of exactly the bytes `data`
+specfunc EcdsaOK(key Bytes, data Bytes, sig Bytes) bool = eth_verify(key, hash_bytes(keccak_one(data)), ite(len(sig) == 65, sig[0:64], sig))
+
+func (PubKey).verifySignatureECDSA
+    ensures def: result == EcdsaOK(pubKey.Key, msg, sig)
+
+// sig verifies over the EIP-712 digest of the sign document b: Keccak-256 of the raw data of THE typed data of b
+// (AmTD / PbTD: chain id in the domain, complete sign document - every execution-relevant field - in the message), b being an
+// amino-JSON or protobuf sign document without unsupported fields (AmSupported / PbSupported). (When the EIP-155 number of the
+// chain-id string does not fit 64 bits only the supported-fields part is claimed.)
+specfunc Eip712OK(key Bytes, b Bytes, sig Bytes) bool =
+        (AmSupported(b) && (U64(chainid_num(AmDoc(b).ChainID)) ==> EcdsaOK(key, str2bytes(typed_raw(AmTD(b))), sig)))
+        || (PbSupported(b) && (U64(chainid_num(pb_signdoc(b).ChainId)) ==> EcdsaOK(key, str2bytes(typed_raw(PbTD(b, "", ""))), sig)))
+specfunc LegacyEip712OK(key Bytes, b Bytes, sig Bytes) bool =
+        (AmSupported(b) && SameType(AmMsgs(b)) && (U64(chainid_num(AmDoc(b).ChainID)) ==> EcdsaOK(key, str2bytes(typed_raw(LegacyAmTD(b))), sig)))
+        || (PbSupported(b) && SameType(PbMsgs(b)) && (U64(chainid_num(pb_signdoc(b).ChainId)) ==> EcdsaOK(key, str2bytes(typed_raw(LegacyPbTD(b, "", ""))), sig)))
+
+func (PubKey).verifySignatureAsEIP712
+    requires wf: AmWF(msg) && PbWF(msg)
+    modifies heap(AnyT)
+    ensures any_content: forall p *AnyT :: p.TypeUrl == old(p.TypeUrl) && p.Value == old(p.Value)
+    ensures only_if: result ==> Eip712OK(pubKey.Key, msg, sig) || LegacyEip712OK(pubKey.Key, msg, sig)
+    ensures rejected_unsupported: !AmSupported(msg) && !PbSupported(msg) ==> !result
+
+// C03 (e): a signature is accepted for the sign bytes msg (built by the node from the transaction, the chain id, the
+// account number and the account's CURRENT sequence) only if it verifies under the account key over Keccak-256 of msg itself,
+// or over the EIP-712 digest of the typed data that covers the complete sign document.
+func (PubKey).VerifySignature
+    requires wf: AmWF(msg) && PbWF(msg)
+    modifies heap(AnyT)
+    ensures any_content: forall p *AnyT :: p.TypeUrl == old(p.TypeUrl) && p.Value == old(p.Value)
+    ensures only_if: result ==> EcdsaOK(pubKey.Key, msg, sig) || Eip712OK(pubKey.Key, msg, sig) || LegacyEip712OK(pubKey.Key, msg, sig)
+    ensures direct: EcdsaOK(pubKey.Key, msg, sig) ==> result
+    ensures rejected_unsupported: !EcdsaOK(pubKey.Key, msg, sig) && !AmSupported(msg) && !PbSupported(msg) ==> !result
+@*/
